@@ -235,10 +235,18 @@ def _lrepr_bool(o: bool, **_) -> str:
     return repr(o).lower()
 
 
+_BYTES_ESCAPES = {ord('"'): '\\"', ord("\\"): "\\\\", 0x09: "\\t", 0x0A: "\\n", 0x0D: "\\r"}
+
+
 @lrepr.register(bytes)
 def _lrepr_bytes(o: bytes, **_) -> str:
-    v = repr(o)
-    return f'#b "{v[2:-1]}"'
+    # Same escapes as Python's own `repr(bytes)`, except that the delimiter is always a
+    # double quote, so it is the double quote (not the single quote) which is escaped.
+    v = "".join(
+        _BYTES_ESCAPES.get(b) or (chr(b) if 0x20 <= b < 0x7F else f"\\x{b:02x}")
+        for b in o
+    )
+    return f'#b "{v}"'
 
 
 @lrepr.register(type(None))
